@@ -92,8 +92,8 @@ ConstructMarks(tr, post) ==
   Mark("N_flagedge", prm.hasmsa /\ NAbove(raw, prm) \in {prm.h0, prm.h0 + 1})
 
 SliceImpl(ev, post) ==
-  Chk("I_SliceIds", Len(ev.taps.clu) = 1 => post.ids.s = SliceIds(post.data, ev.taps.clu[1])) \cup
-  Chk("I_SliceFew", Len(ev.taps.clu) = 0 => post.ids.s = SliceIds(post.data, <<>>))
+  Chk("I_SliceIds", Len(ev.taps.clu) = 1 => (Len(ev.taps.clu[1]) = Cardinality(Valid(post.data)) /\ post.ids.s = SliceIds(post.data, ev.taps.clu[1]))) \cup     \* taps that do not line up with the valid hits: the clause fails, the judge goes on
+  Chk("I_SliceFew", Len(ev.taps.clu) = 0 => (Cardinality(Valid(post.data)) <= 1 /\ post.ids.s = SliceIds(post.data, <<>>)))
 
 (* merge of close groups: compare with the operator when every base is determined *)
 AllTieFree(d, g, prm) == \A id \in IdsPresent(g) : TieFree(d, Selected(d, MemIdx(g, id), prm), prm.lb)
